@@ -454,9 +454,27 @@ func c05Lockstep(c *Ctx, p *core.Prog) {
 	r.Rule("lockstep-append", "a function that builds two parallel slices appends the same symbolic number of elements to both in every loop iteration and on every path to a successful return (1 per element, len(s) per s..., len(s) times the body of a counting loop over s)")
 	n := 0
 	for _, sp := range c05LockstepTable {
+		// the function of that name that appends to both slice types (a method rewritten as a plain function, or a
+		// second method of the same name on another type, must not lose the anchor)
 		var fn *ssa.Function
 		for _, f := range p.SrcFuncs(sp.pkg) {
-			if f.Name() == sp.fn && f.Parent() == nil {
+			if f.Name() != sp.fn || f.Parent() != nil {
+				continue
+			}
+			a, b := false, false
+			for _, blk := range f.Blocks {
+				for _, in := range blk.Instrs {
+					if c, ok := in.(*ssa.Call); ok && core.IsBuiltinCall(&c.Call, "append") {
+						switch elemTypeName(c) {
+						case sp.first:
+							a = true
+						case sp.second:
+							b = true
+						}
+					}
+				}
+			}
+			if fn == nil || (a && b) {
 				fn = f
 			}
 		}
